@@ -178,6 +178,10 @@ func confusions(orig *jnode) []struct {
 	}
 }
 
+// HotPaths are path fragments of the members that parsers and validators look at most.
+var HotPaths = []string{"credentialSubject", "/type", "/proof", "constraints", "verificationMethod", "submission_requirements", "descriptor_map",
+	"credentialStatus", "/pal", "/prevs", "/jwk", "/crit", "assertionMethod", "capabilityInvocation", "/service", "/vp", "/vc", "/nonce", "/aud", "/exp", "/nbf", "/iat", "encodedList"}
+
 // MutateJSON applies one seeded mutation to a JSON document. It returns the mutated bytes
 // and a description, or (nil, "") when raw is not JSON.
 func MutateJSON(raw []byte, choose Chooser) ([]byte, string) {
@@ -189,6 +193,21 @@ func MutateJSON(raw []byte, choose Chooser) ([]byte, string) {
 	}
 	var sl []jslot
 	root.slots("", nil, 0, &sl)
+	// half of the time the mutation lands in a part that the node acts upon rather than anywhere
+	if choose("focus", 2) == 1 {
+		var hot []jslot
+		for _, x := range sl {
+			for _, h := range HotPaths {
+				if strings.Contains(x.path, h) {
+					hot = append(hot, x)
+					break
+				}
+			}
+		}
+		if len(hot) > 0 {
+			sl = hot
+		}
+	}
 	s := sl[choose("node", len(sl))]
 	kinds := []string{"confuse", "confuse", "confuse", "delete", "null", "duplicate", "rename", "swap", "truncate", "empty-container", "drop-first-element", "wrap-root"}
 	kind := kinds[choose("mutation", len(kinds))]
